@@ -835,6 +835,50 @@ theorem mkQuant_ok {g : Reg} {cn u : Sym} {q : Quant} (h : mkQuant g cn u = .ok 
         cases h
         exact ⟨ci, u', r, rfl, rfl, hi, Db.getInfo_mem hi⟩
 
+/-- **the construction form does not matter**: an object built without naming a category
+(`Scalar(v, unit)`, `Array(values, unit)`, …) gets exactly the quantity the named construction gives
+for the default category of the unit, so every verdict is the same in both forms -/
+theorem construction_form_irrelevant {g : Reg} {u : Sym} {q : Quant} (h : mkQuantNoCat g u = .ok q) :
+    ∃ c u', mkQuant g c u' = .ok q ∧ (u' = u ∨ u' = fixLegacy g.legacy u)
+      ∧ (defaultCategory g u = .ok (some c) ∨ defaultCategory g (fixLegacy g.legacy u) = .ok (some c)) := by
+  unfold mkQuantNoCat at h
+  cases hd : defaultCategory g u with
+  | error e => rw [hd] at h; cases h
+  | ok oc =>
+    rw [hd] at h
+    cases oc with
+    | some c => exact ⟨c, u, h, Or.inl rfl, Or.inl rfl⟩
+    | none =>
+      simp only at h
+      split at h
+      · cases hd2 : defaultCategory g (fixLegacy g.legacy u) with
+        | error e => rw [hd2] at h; cases h
+        | ok oc2 =>
+          rw [hd2] at h
+          cases oc2 with
+          | some c => exact ⟨c, _, h, Or.inr rfl, Or.inr rfl⟩
+          | none => cases h
+      · cases h
+
+/-- **a re-registration is in force at once**: after an accepted `AddCategory` (with `override` or
+not) every quantity created for that category name — named or through the default category of a unit —
+carries the `CategoryInfo` just registered, whatever was registered under the name before -/
+theorem addCategory_in_force {g g' : Reg} {a : AddArgs} {info : CatInfo}
+    (h : addCategory g a = .ok (g', info)) :
+    g'.cat? a.category = some info
+    ∧ ∀ u q, mkQuant g' a.category u = .ok q → ∃ u' r, q = .simple info u' r := by
+  obtain ⟨_, _, _, hcats, _, hname⟩ := addCategory_default_ok h
+  have hc : g'.cat? a.category = some info := by
+    unfold Reg.cat?
+    rw [hcats]
+    simp [List.find?, hname]
+  refine ⟨hc, ?_⟩
+  intro u q hq
+  obtain ⟨ci, u', r, rfl, hci, _, _⟩ := mkQuant_ok hq
+  rw [hc] at hci
+  cases hci
+  exact ⟨u', r, rfl⟩
+
 /-! ### the shipped unit tables satisfy the hypothesis (regenerated and re-proved on every run) -/
 
 theorem rowsOK_of_all {units : List UnitRow} (h1 : units.all UnitRow.wf = true)
